@@ -304,6 +304,64 @@ func checkJSONObject(p *Prog, r *Report) {
 					okN, why = false, "a body `null` decodes into a nil map without error and is accepted as the JSON object"
 				}
 			}
+			// the decision "JSON object or not" is the decoder's: the body bytes are not inspected elsewhere
+			allowed := map[string]bool{"Close": true, "NewDecoder": true, "Decode": true, "LimitReader": true, "MaxBytesReader": true, "NewReader": true, "NewReaderSize": true, "UseNumber": true, "DisallowUnknownFields": true}
+			for _, s := range Paths(fn).Segs {
+				if !s.Has(d) {
+					continue
+				}
+				taint := map[ssa.Value]bool{}
+				isT := func(v ssa.Value) bool {
+					v = s.Resolve(v)
+					for i := 0; i < 4; i++ {
+						switch t := v.(type) {
+						case *ssa.ChangeInterface:
+							v = s.Resolve(t.X)
+							continue
+						case *ssa.MakeInterface:
+							v = s.Resolve(t.X)
+							continue
+						}
+						break
+					}
+					if taint[v] {
+						return true
+					}
+					if _, f, isF := fieldLoad(v); isF && f == "Body" {
+						return true
+					}
+					return false
+				}
+				for _, e := range s.Events {
+					if e.Kind != EvCall && e.Kind != EvDefer {
+						continue
+					}
+					touched := false
+					for _, a := range e.Call.Args {
+						if isT(a) {
+							touched = true
+						}
+					}
+					if e.Call.IsInvoke() && isT(e.Call.Value) {
+						touched = true
+					}
+					if !touched {
+						continue
+					}
+					nm := ""
+					if m := IfaceMethod(e.Call); m != nil {
+						nm = m.Name()
+					} else if f := StaticCallee(e.Call); f != nil {
+						nm = f.Name()
+					}
+					if !allowed[nm] {
+						okN, why = false, "the response body is read by "+CalleeName(e.Call)+" outside the JSON decoder: what counts as a JSON object is no longer the decoder's decision"
+					}
+					if e.Val != nil {
+						taint[e.Val] = true
+					}
+				}
+			}
 			r.Check(okN, "C10.R2", name+"/object", p.Pos(d.Pos()), "a decoded map is accepted only when the decode error is nil and the map is non-nil", why)
 		}
 	}
